@@ -84,6 +84,7 @@ func c19Doc(frames []string, where string) string {
 }
 
 func c19Enumerate(tier string, emit func(*eng.Case)) {
+	crossEmit("C19", tier, "xframes", 1, emit)
 	type fr struct{ sch, svc, hf, path, tag int }
 	src := func(f fr) string {
 		return c19Schemes[f.sch] + c19HostForms[f.hf].gen(c19Services[f.svc]) + c19Paths[f.path]
@@ -366,10 +367,11 @@ func init() {
 		ID:        "C19",
 		DesignRef: "§5 C19",
 		Rule: "source URLs = 4 schemes (http, https, scheme-relative, none) x 5 services (4 allow-listed + vimeo.com) x 18 host forms (exact, www, deep subdomain, suffix/prefix look-alikes, userinfo tricks, name in path/query/fragment, port, upper case, trailing dot) x 15 path/query shapes (ids with an escaped quote or angle brackets) x 5 tag kinds (iframe, object data, object param, twitter blockquote, rendered-tweet iframe): full product in the article body; " +
-			"the frames with the 1 (quick) / 4 (thorough) leading path shapes also inside a data-table cell, a figure caption, a layout table, a <picture> that has an <img>, and a figure>picture>span; every scheme-relative (thorough: also absolute) source once more without any page URL; frames with an empty, fragment-only or missing source on pages that live on an allow-listed host; thorough adds pairs of frames. Oracle: every embed placeholder maps to a source frame whose reference-parsed host is an allow-listed host of its data-type or a subdomain, with data-id = last non-empty path segment (resp. data-tweet-id); no iframe/object outside placeholder, table or caption. " +
+			"the frames with the 1 (quick) / 4 (thorough) leading path shapes also inside a data-table cell, a figure caption, a layout table, a <picture> that has an <img>, and a figure>picture>span; every scheme-relative (thorough: also absolute) source once more without any page URL; frames with an empty, fragment-only or missing source on pages that live on an allow-listed host; thorough adds pairs of frames." + crossRule + " Oracle: every embed placeholder maps to a source frame whose reference-parsed host is an allow-listed host of its data-type or a subdomain, with data-id = last non-empty path segment (resp. data-tweet-id); no iframe/object outside placeholder, table or caption. " +
 			"Non-trivial = a look-alike source is present or a placeholder was produced.",
 		Enumerate: c19Enumerate,
 		Check:     c19Check,
+		Prepare:   func(tier string) { CrossCorpus(tier) },
 		Bounds: func(tier string) map[string]any {
 			return map[string]any{"schemes": 4, "services": 5, "host_forms": len(c19HostForms), "paths": len(c19Paths), "tags": 5}
 		},
